@@ -32,7 +32,6 @@ deriving Repr, Inhabited
 /-- `q` lies strictly below directory `p` -/
 def under (q p : String) : Bool := (p ++ "/").toList.isPrefixOf q.toList
 
-def whPrefix : List Char := ".wh.".toList
 def opqName : String := ".wh..wh..opq"
 
 /-- the entry is a whiteout marker (a regular file whose base name starts with `.wh.`) -/
@@ -98,6 +97,56 @@ def filePaths (layers : List FSLayer) : List String :=
 /-- the flattened image as a list of regular files -/
 def flatten (layers : List FSLayer) : List (String × String) :=
   (filePaths layers).filterMap fun q => (present layers q).map fun c => (q, c)
+
+/-! ### the scanners (parameters) and the indexer on a layer stack -/
+
+/-- The scanners, abstractly.  `osDbs`: paths of the OS package databases (one linux
+    ecosystem each: dpkg's `var/lib/dpkg/status`, apk's `lib/apk/db/installed`, …);
+    `scanDB d content`: the packages an OS database scanner reads out of the file;
+    `scanFile path content`: what the language scanners make of one regular file
+    (python METADATA, package.json, gemspec, jar). -/
+structure Scanners where
+  osDbs : List String
+  scanDB : String → String → List Pkg
+  scanFile : String → String → Option Pkg
+
+/-- OS packages carry the database path and no file path. -/
+def osPkgsOf (S : Scanners) (d c : String) : List Pkg := (S.scanDB d c).map fun p => { p with db := d, fp := "" }
+
+/-- one language package: `Filepath` is the file it was read from -/
+def langPkgAt (S : Scanners) (q c : String) : Option Pkg := (S.scanFile q c).map fun p => { p with fp := q }
+
+/-- what the OS scanner of database `d` stores for one layer, scanned in isolation -/
+def osArts (S : Scanners) (d : String) (l : FSLayer) : Layer :=
+  { hash := l.hash, pkgs := match fileOf l d with | some c => osPkgsOf S d c | none => [] }
+
+def langPkgs (S : Scanners) (l : FSLayer) : List Pkg :=
+  l.entries.filterMap fun e => match e.2 with
+    | .file c => if isWhiteout e.1 then none else langPkgAt S e.1 c
+    | .dir => none
+
+def defaultRepo : Repo := { id := "R", name := "default", key := "", uri := "" }
+
+/-- language ecosystem: `LayerScanner` stores the scanner's default repository whenever it found a package -/
+def langArts (S : Scanners) (l : FSLayer) : Layer :=
+  { hash := l.hash, pkgs := langPkgs S l, repos := if (langPkgs S l).isEmpty then [] else [defaultRepo] }
+
+def whArts (l : FSLayer) : Layer :=
+  { hash := l.hash, files := (whiteoutsOf l).map fun w => { path := w, kind := whiteoutKind } }
+
+/-- the per-ecosystem artifact lists, packed per manifest layer as `controller.coalesce` does -/
+def ecosOf (S : Scanners) (layers : List FSLayer) : List (Kind × List Layer) :=
+  (S.osDbs.map fun d => (Kind.linux, layers.map (osArts S d))) ++
+    [(Kind.lang, layers.map (langArts S)), (Kind.wh, layers.map whArts)]
+
+/-- `Index` on a layer stack: every layer scanned in isolation, then coalesce, MergeSR, resolve -/
+def indexModel (S : Scanners) (layers : List FSLayer) : Option Report :=
+  indexCoalesce (layers.map (·.hash)) (ecosOf S layers)
+
+/-- the same scanners on the single flattened file system -/
+def scanImage (S : Scanners) (layers : List FSLayer) : List Pkg :=
+  (S.osDbs.flatMap fun d => match present layers d with | some c => osPkgsOf S d c | none => []) ++
+    (flatten layers).filterMap fun qc => langPkgAt S qc.1 qc.2
 
 /-! ### line protocol: `flat layer|layer|…`, layer = `-` or `path:d,path:cN,…` -/
 
